@@ -234,7 +234,7 @@ HOSTILE = [
     'bot intent: bot a\nbot action: bot say "a"\n  and bot say "b"', "bot intent: bot z\nbot action: bot say 'single'", 'bot action: bot gesture "wave"',
     'bot intent: bot x\nbot action: bot say "unterminated', "bot action: bot say 4242", "bot action: bot say None", "bot action: bot say $undefined_thing",
     "define flow", "define flow x\n  bot y", 'define user x\n  "y"', "define bot", "define", 'flow x\n  bot say "y"', "flow", "flow main", "if $x\n  bot a", "if", "else", "when", "while True",
-    "while True\n  bot a", "while True\n  $x = 1", "bot answer other\n$n = 0\nwhile $n < 1\n  $m = $n", "bot answer other\nwhile True\n  pass", "stop", "abort", "return", "return 5", "pass", "break", "continue", "execute foo", "execute", "$x = ...", "...", "# comment only", "await UnknownAction()", "match Never()",
+    "half an emoji \ud83d cut by a token boundary", "\udc00", "lone surrogate \ud83d and a long tail " + "lorem ipsum " * 30, "while True\n  bot a", "while True\n  $x = 1", "bot answer other\n$n = 0\nwhile $n < 1\n  $m = $n", "bot answer other\nwhile True\n  pass", "stop", "abort", "return", "return 5", "pass", "break", "continue", "execute foo", "execute", "$x = ...", "...", "# comment only", "await UnknownAction()", "match Never()",
     'send StopFlow(flow_id="main")', "bot action: await UnknownAction()", "bot action: match Never()", 'bot action: send StopFlow(flow_id="main")', "bot action: $x = 1/0", "bot action: abort",
     "bot action: ...", "bot action: activate main", "bot action: await main", "$x = 1/0", "import core", "@active", "meta", "and", "or bot x", "bot a and bot b", "bot a or bot b", "priority 5",
     "bot answer other\n  \"inline text\"", "bot answer other\nsomething that breaks parsing", "bot answer other\n    over indented", "bot answer other\nuser ask something\nbot answer fixed",
